@@ -136,8 +136,8 @@ func init() {
 			{Fn: "H_hierarchy", Params: map[string]int{"implbits": 16}, Fuel: 30_000_000, Tier: "quickonly", Reach: []string{"end"}},
 			{Fn: "H_hierarchy", Params: map[string]int{"implbits": 64}, Fuel: 30_000_000, Tier: "thorough", Reach: []string{"end"}},
 		},
-		Rule:        rule + "; the hierarchy is the quantified dimension: parent links of 3 classes (single inheritance), extends edge between 2 interfaces, implements matrix, override bits — every shape (quick: 768 with C0 implementing nothing, thorough: all 3072) is assembled as script text, registered by the real class/interface parsers and checked for all (object, type) pairs (instanceof, typed parameter, catch) and all dispatch forms (virtual call, parent::, self::, static::, like) against reachability computed by a 15-line closure. No scalar dimension: the engine degenerates to exhaustive bounded enumeration here",
-		Outside:     []string{"4-5 classes, 3-4 interfaces, multiple interface extends", "like with more than 3 probe interfaces"},
+		Rule:    rule + "; the hierarchy is the quantified dimension: parent links of 3 classes (single inheritance), extends edge between 2 interfaces, implements matrix, override bits — every shape (quick: 768 with C0 implementing nothing, thorough: all 3072) is assembled as script text, registered by the real class/interface parsers and checked for all (object, type) pairs (instanceof, typed parameter, catch) and all dispatch forms (virtual call, parent::, self::, static::, like) against reachability computed by a 15-line closure. No scalar dimension: the engine degenerates to exhaustive bounded enumeration here",
+		Outside: []string{"4-5 classes, 3-4 interfaces, multiple interface extends", "like with more than 3 probe interfaces"},
 	})
 
 	reg(Check{
@@ -149,8 +149,8 @@ func init() {
 			{Fn: "H_history", Params: k(3), Fuel: 20_000_000, Tier: "quick", Reach: []string{"end"}},
 			{Fn: "H_history", Params: k(4), Fuel: 30_000_000, Tier: "thorough", Reach: []string{"end"}},
 		},
-		Rule:        rule + "; every history of k steps over {instantiate Box<int|string|array|U> into one of 2 slots, write a value of kind int|string|array|U into a slot's T-typed property, pass it to a T-typed method parameter}; the script is assembled per path and parsed by the real generic-class parser; expected acceptance is computed per instance from its own type argument. Structural enumeration through the engine; the int payload is symbolic",
-		Outside:     []string{"two-parameter generic classes", "concurrent instantiation (only sequential orders)", "histories longer than 4"},
+		Rule:    rule + "; every history of k steps over {instantiate Box<int|string|array|U> into one of 2 slots, write a value of kind int|string|array|U into a slot's T-typed property, pass it to a T-typed method parameter}; the script is assembled per path and parsed by the real generic-class parser; expected acceptance is computed per instance from its own type argument. Structural enumeration through the engine; the int payload is symbolic",
+		Outside: []string{"two-parameter generic classes", "concurrent instantiation (only sequential orders)", "histories longer than 4"},
 	})
 
 	reg(Check{
@@ -162,8 +162,8 @@ func init() {
 			{Fn: "H_history", Params: k(2), Tier: "quick", Reach: []string{"end"}},
 			{Fn: "H_history", Params: k(3), Tier: "thorough", Reach: []string{"end"}},
 		},
-		Rule:        rule + "; every history of k operations (op in {AddClass, AddFunc, AddInterface, GetClass, GetFunc, GetInterface}) x (VM in {base, temp1, temp2}) x (name in {a, A, b}: a case-fold collision and a distinct name); after each step a relational check compares what every other VM resolves for every pool name with what it resolved before the step (no name-matching model needed), and everything the base resolves must be resolvable through each temporary VM. Finite enumeration through the engine",
-		Outside:     []string{"histories longer than 3, more than 2 temporary VMs, pools larger than 3 names", "instantiate/call/discard operations, LoadPkg autoloading from files"},
+		Rule:    rule + "; every history of k operations (op in {AddClass, AddFunc, AddInterface, GetClass, GetFunc, GetInterface}) x (VM in {base, temp1, temp2}) x (name in {a, A, b}: a case-fold collision and a distinct name); after each step a relational check compares what every other VM resolves for every pool name with what it resolved before the step (no name-matching model needed), and everything the base resolves must be resolvable through each temporary VM. Finite enumeration through the engine",
+		Outside: []string{"histories longer than 3, more than 2 temporary VMs, pools larger than 3 names", "instantiate/call/discard operations, LoadPkg autoloading from files"},
 	})
 
 	reg(Check{
@@ -178,6 +178,28 @@ func init() {
 		Rule:        rule + "; Go's map iteration order is the adversary and is made a symbolic choice: every range over a Go map with 2..3 entries executed inside origami code (up to 4 such ranges per path) takes its order from a fresh symbolic permutation, all orders are explored as sibling paths, and the output must equal the insertion-order run of the same template in the same path; OrderedMap Set/Delete histories against a slice model; all ordered pairs (A then B vs B alone) of the templates on fresh VMs in one engine process",
 		Assumptions: []string{"maps with more than 3 entries and the 5th and later permutable ranges of a path iterate in insertion order"},
 		Outside:     []string{"byte-identical diagnostics / exit status across fresh OS processes", "std/php output buffers and spl registries (not loaded)", "programs outside the 10 templates"},
+	})
+
+	c09 := func(fn string, p map[string]int, tier string, pre int) RunDef {
+		return RunDef{Fn: fn, Params: p, Tier: tier, Sched: true, Preempt: pre, Reach: []string{"end"}, NativeTwin: "N_close_parked"}
+	}
+	reg(Check{
+		ID:  "C09",
+		Pkg: "verif/harness/c09",
+		Runs: []RunDef{
+			c09("H_pc", map[string]int{"producers": 1}, "quick", 2),
+			c09("H_pc", map[string]int{"producers": 2}, "quick", 2),
+			c09("H_close_drain", nil, "quick", 2),
+			c09("H_two_consumers", nil, "quick", 2),
+			c09("H_close_race", nil, "quick", 2),
+			c09("H_pc", map[string]int{"producers": 2}, "thorough", 3),
+			c09("H_two_consumers", nil, "thorough", 3),
+			c09("H_close_race", nil, "thorough", 4),
+			c09("H_close_drain", nil, "thorough", 4),
+		},
+		Rule:        rule + "; goroutines of the harness and the real Channel methods run as engine threads under a baton; at every visible operation (go, chan send/recv/close/len, WaitGroup ops, accesses to Channel.closed) the scheduler decision is a recorded choice and all alternatives are explored, with preemption bounding; Go channels are modelled exactly (FIFO buffer, rendezvous, close wakes parked senders with a panic); a vector-clock happens-before relation flags unordered conflicting accesses to Channel.closed; capacity 0..2 enumerated, payloads symbolic",
+		Assumptions: []string{"bounded: <= 3 goroutines besides main, <= 2 channel operations per goroutine, <= 2 (quick) / 3-4 (thorough) preemptions", "schedule counterexamples replay deterministically in the engine; native confirmation by the directed twin N_close_parked (sender parked on an unbuffered channel, then Close)"},
+		Outside:     []string{"more than 3 goroutines / 2 operations each, capacities 3-4", "script-level spawn closures sharing a frame", "seeded stress under the race detector (different technique family)"},
 	})
 
 	c17 := func(fn string, p map[string]int) RunDef {
